@@ -42,6 +42,7 @@ static std::vector<Op> buildAlphabet(const std::string& name, Limits& L, const s
         for (auto d : {"ok", "ok2", "fewer", "more", "none", "nocol", "sub_fewer", "sub_more", "dup", "dup2", "ragged"}) A.push_back(opColAnalog(d, 0, L));
         A.push_back(opParamBad("NEWB", true, false)); A.push_back(opParamBad("POINT", false, true)); A.push_back(opParamBad("NEWB", false, false));
         A.push_back(opLock("NOPE", true)); A.push_back(opLock("NOPE", false));
+        A.push_back(opParamMandatoryBad("POINT", "RATE", "int")); A.push_back(opParamMandatoryBad("POINT", "USED", "empty-int")); A.push_back(opParamMandatoryBad("ANALOG", "USED", "string")); A.push_back(opParamMandatoryBad("POINT", "FRAMES", "float"));   // (ANALOG:RATE is only read when POINT:RATE is set: not refused in every state, hence not generated)
         A.push_back(opReload());
     } else if (name == "frames") {  // C06 / C08: frame targets, contents, caller registers, in-place edits
         L.maxFrames = thorough ? 5 : 4; L.maxPoints = 3; L.maxChans = 2; L.noRateEditWithData = true;
@@ -83,6 +84,7 @@ static std::vector<Op> buildAlphabet(const std::string& name, Limits& L, const s
         for (auto g : {"G2", "G3", "G4", "G5", "G6", "G7"}) A.push_back(opParamFromStored(g, L));
         for (auto g : {"POINT", "NEWG", "G2", "NOPE"}) { A.push_back(opLock(g, true)); A.push_back(opLock(g, false)); }
         A.push_back(opParamBad("NEWB", true, false)); A.push_back(opParamBad("POINT", false, true)); A.push_back(opParamBad("POINT", true, false));
+        A.push_back(opParamMandatoryBad("POINT", "RATE", "string")); A.push_back(opParamMandatoryBad("POINT", "USED", "float")); A.push_back(opParamMandatoryBad("ANALOG", "USED", "empty-int"));
         A.push_back(opPoint("A", L)); A.push_back(opRate("POINT", 100.f)); A.push_back(opFrame("ok", "app", 0, L));
     } else if (name == "lookup") {  // C11: containers of every size 0..N
         L.maxFrames = thorough ? 3 : 2; L.maxPoints = thorough ? 3 : 2; L.maxChans = 2; L.maxGroups = 5; L.noColumnsOnGaps = true;
